@@ -670,6 +670,58 @@ func engSlowCase(id int, rateStr string, workers int, slow time.Duration, total 
 	return o
 }
 
+// ---------------------------------------------------------------- engcancel (the scan is interrupted while workers wait)
+
+// engCancelCase: the application engine with more workers than the burst allowance, all of them
+// waiting in the limiter (rate slow compared with the probes); the command context is cancelled
+// (Ctrl-C) while they wait.  Every probe the engine still starts (Scanner.Scan invoked) is recorded
+// for `watch` after the cancellation; they must be paced like all others.
+func engCancelCase(id int, rateStr string, workers int, cancelAfter, watch time.Duration) row {
+	o := row{Kind: "eng", ID: id, Class: "eng/cancel-while-waiting", RateStr: rateStr, Workers: workers, RetOK: true}
+	cnt, win, err := command.VerifC15ParseRateLimit(rateStr)
+	if err != nil {
+		o.Err = "parse: " + err.Error()
+		return o
+	}
+	o.Rate, o.Per, o.ParseOK = int64(cnt), int64(win), true
+	ctx, cancel := context.WithCancel(context.Background())
+	defer cancel()
+	ts := &timingScanner{}
+	engine, err := command.VerifC15NewGenericEngine(ctx, rateStr, workers, ts)
+	if err != nil {
+		o.Err = "engine: " + err.Error()
+		return o
+	}
+	_, subnet, _ := net.ParseCIDR("10.9.0.0/28")
+	rng := &scan.Range{DstSubnet: subnet, Ports: []*scan.PortRange{{StartPort: 1, EndPort: 20}}}
+	o.M = 320
+	go func() {
+		for range engine.Results() {
+		}
+	}()
+	t0 := time.Now()
+	done, errc := engine.Start(ctx, rng)
+	go func() {
+		for range errc {
+		}
+	}()
+	time.Sleep(cancelAfter)
+	o.Takes = int64(time.Since(t0)) // when the context was cancelled (ns after the start)
+	cancel()
+	select {
+	case <-done:
+	case <-time.After(watch):
+	}
+	ts.mu.Lock()
+	for _, t := range ts.starts {
+		o.Starts = append(o.Starts, int64(t.Sub(t0)))
+	}
+	ts.mu.Unlock()
+	sort.Slice(o.Starts, func(i, j int) bool { return o.Starts[i] < o.Starts[j] })
+	o.Scans = int64(len(o.Starts))
+	return o
+}
+
 // ---------------------------------------------------------------- eng (real clock)
 
 type timingScanner struct {
@@ -939,7 +991,7 @@ func main() {
 	if *neng > 0 {
 		// slow-then-fast engine run and the quiet-source receive latency runs, side by side
 		var wg sync.WaitGroup
-		extra := make([]row, 5)
+		extra := make([]row, 6)
 		run := func(i int, kind string, id int, f func() row) {
 			if !want(kind, id) {
 				return
@@ -948,6 +1000,9 @@ func main() {
 			go func() { defer wg.Done(); extra[i] = f() }()
 		}
 		run(0, "eng", 100, func() row { return engSlowCase(100, "100/s", 25, 600*time.Millisecond, 100) })
+		run(5, "eng", 101, func() row {
+			return engCancelCase(101, "20/s", 24, 330*time.Millisecond, 1500*time.Millisecond)
+		})
 		for k := 0; k < 4; k++ {
 			k := k
 			run(1+k, "rxlat", k, func() row { return rxlatCase(k) })
